@@ -34,6 +34,16 @@ SPECS = {
         assumptions=["only the Formal of error(Formal, Context) is compared"],
         explanation="as C01, over programs with catch/3, throw/1 and built-in errors",
     ),
+    "C09": dict(
+        level="proof", props_deps=["Proofs/Db.v"], model_deps=ENGINE_MODEL_DEPS, trusted=ENGINE_TRUSTED,
+        assumptions=["a retract alternative whose clause was already removed by another update fails (it is not removed twice)"],
+        explanation="database histories run on the implementation, M and S; the final listing and all answers compared",
+    ),
+    "C10": dict(
+        level="proof", props_deps=["Proofs/Compile.v"], model_deps=ENGINE_MODEL_DEPS, trusted=ENGINE_TRUSTED,
+        assumptions=["the recorded storage convention F3a is recognised by running S with that convention (Model/Sld.v ss_split)"],
+        explanation="clauses loaded as text and asserted, observed through clause/2, retract/1 and calls, on the implementation, M and S",
+    ),
     "C11": dict(
         level="proof", props_deps=["Proofs/Groups.v"], model_deps=ENGINE_MODEL_DEPS, trusted=ENGINE_TRUSTED,
         assumptions=["setof/3 results whose order hinges on the order of distinct unbound variables are not generated",
